@@ -43,7 +43,7 @@ Proof.
   destruct (nth_error (cur s) w) as [cw|] eqn:Ec; [|discriminate].
   destruct (nth_error (hand s) w) as [hw|] eqn:Eh; [|discriminate].
   destruct (nth_error (dq s) w) as [qw|] eqn:Eq; [|discriminate].
-  destruct m as [c|c| |v|j| | | |y| | ].
+  destruct m as [c|c| |v|j| | | |y| | |v].
   - destruct cw as [|p|p]; try discriminate.
     destruct (is_fresh s c) eqn:Ef; [|discriminate]. injection Hm as <-.
     assert (Hcx : c <> x) by congruence.
@@ -112,6 +112,11 @@ Proof.
   - destruct cw as [|p|p]; try discriminate. destruct hw as [n|]; try discriminate. injection Hm as <-.
     pose proof (MP.sumf_upd (w_cur x) (cur s) w (Run n) Sched Ec) as Hc. cbn [w_cur] in Hc.
     pose proof (MP.sumf_upd (w_hand x) (hand s) w None (Some n) Eh) as Hh. cbn [w_hand] in Hh.
+    split; [exact Hl|]. occs. lia.
+  - destruct cw as [|p|p]; try discriminate. destruct hw as [y|]; try discriminate.
+    destruct (nth_error (dq s) v) as [qv|] eqn:Ev; [|discriminate]. injection Hm as <-.
+    pose proof (MP.sumf_upd (w_hand x) (hand s) w None (Some y) Eh) as Hh. cbn [w_hand] in Hh.
+    pose proof (MP.sumf_upd (w_q x) (dq s) v (y :: qv) qv Ev) as Hq. rewrite MP.w_q_cons in Hq.
     split; [exact Hl|]. occs. lia.
 Qed.
 
